@@ -65,6 +65,13 @@ POOL = [
     ("rel", 1, "", ("handlers",)),
     ("rel", 2, "subx", ("m",)),
     ("rel", 2, "subx.m", ("name",)),
+    # ancestor packages of module_path are modules of the architecture (C04) but lie outside module_path:
+    # an import of one is an import of something external
+    ("import", "top"),
+    ("import", "top.proj"),
+    ("from", "top", ("name",)),
+    # (not generated: 'from .. import name' leaving module_path - whether that names the package or a module
+    #  'name' inside it cannot be known for something that is not scanned, and nothing documents it)
 ]
 
 
@@ -106,14 +113,26 @@ def plan(tier, seed):
                                                   "external-kept", "external-dropped"]}
 
 
+def mp_ancestors(mp):
+    return set(ancestors(mp.replace("/", ".")))
+
+
+def external_imports(m, mp):
+    """Imports of something outside module_path: of a real external, or of an ancestor package of module_path."""
+    anc = mp_ancestors(mp)
+    return list(m["external"]) + sorted((u, v) for (u, v) in m["must"] if v in anc)
+
+
 def expected(files, mp, include, matcher):
     m = model_scan(files, (), ROOT, mp)
     mods = set(m["modules"])
-    must, may = set(m["must"]), set(m["may"])
+    anc = mp_ancestors(mp)
+    must = {(u, v) for (u, v) in m["must"] if v not in anc}
+    may = {(u, v) for (u, v) in m["may"] if v not in anc}
     ext_mods, ext_edges = set(), set()
     dropped = kept = 0
     if include:
-        for importer, t in m["external"]:
+        for importer, t in external_imports(m, mp):
             if matcher and (matcher(t) or any(matcher(a) for a in ancestors(t))):
                 dropped += 1
                 continue
@@ -140,9 +159,12 @@ def run_config(base, files, mp, opts, include, matcher, res, label):
     internal_mods = {m for m in mods if is_internal_name(m, ROOT, mp) or m in ancestors(mp.replace("/", "."))}
     internal_mods |= {m for m in mods if m in e_mods}
     got_ext_mods = mods - internal_mods
-    edges = drop_ancestor_edges(edges)
+    # an import of an ancestor package of module_path leaves module_path: judged like an external import;
+    # imports of the importer's other ancestors (inside module_path) are outside every claim
+    to_mp_ancestor = {(u, v) for u, v in edges if v in mp_ancestors(mp)}
+    edges = drop_ancestor_edges(edges - to_mp_ancestor)
     got_int_edges = {(u, v) for u, v in edges if v in e_mods}
-    got_ext_edges = edges - got_int_edges
+    got_ext_edges = (edges - got_int_edges) | to_mp_ancestor
     obs = {"internal_modules": sorted(mods - got_ext_mods), "external_modules": sorted(got_ext_mods),
            "internal_edges": sorted(map(list, got_int_edges)), "external_edges": sorted(map(list, got_ext_edges))}
     if (mods - got_ext_mods) != e_mods:
@@ -160,7 +182,8 @@ def run_config(base, files, mp, opts, include, matcher, res, label):
 def configs(files, mp, pat_size):
     """(label, options, include, matcher)."""
     m = model_scan(files, (), ROOT, mp)
-    ext_names = sorted({t for _, t in m["external"]} | {a for _, t in m["external"] for a in ancestors(t)})
+    ext = external_imports(m, mp)
+    ext_names = sorted({t for _, t in ext} | {a for _, t in ext for a in ancestors(t)})
     int_names = sorted(n for n in m["modules"] if n.count(".") >= 1)[:4]
     pats = pattern_pool(ext_names + int_names)
     yield ("excluded", {}, False, None)
